@@ -30,14 +30,19 @@ CLAIMED = {
         "evaluates identically for every scalar type (reduce_eval*, unused_irrelevant*), AGraph._update's renumbering yields a backend-well-formed stack. "
         "Lean theorems for the algebraic simplifier (Props/C03Cas.lean) over an executable port of the whole CAS with a partial real semantics and the refinement order "
         "'defined => defined and equal': on the fragment in which every POWER has an integer-literal exponent (it contains every stack without power operators) all eight mutually "
-        "recursive functions of automatic_simplification.py, quotient/difference/logarithm/dispatch, optional modifications and constant grouping are sound (automaticSimplify_sound, "
-        "*_sound), both directions of the stack<->expression interpreter incl. 'the root is the last row despite sharing' (buildCas_den, root_is_last, interp_den), no new constant or "
-        "variable ids (simp_consts_le), well-formed output (simp_wf), fuel monotonicity, and end to end: a constant-free power-free stack is preserved wherever it is defined "
-        "(simplify_stack_sound_noconst_partial). Tie: exact output correspondence of reduce_stack / _update / simplify_stack with the Lean port on every run; oracle: 80-digit evaluation "
-        "before/after (constants kept for automatic_simplify, constants as variables for the whole pipeline).",
-   note=COMMON_NOTE + "NOT theorems (kept as `def ... : Prop`, validated by the oracle): soundness with real-exponent powers ('agree where both are finite'), the witness for constant folding "
-        "(the pipeline theorem with constants is relative to folding being a reparametrisation), termination (watchdog). The proof attempts found and led to the repair of F18 and F19.",
-   technique="Lean 4 proof (loop invariants of utilized/reduce; fuel induction over the mutually recursive simplifier with a refinement order) + exact correspondence with the Lean port; differential oracle for the unproved clauses",
+        "recursive functions of automatic_simplification.py, quotient/difference/logarithm/dispatch, optional modifications, constant grouping and constant folding are sound "
+        "(automaticSimplify_sound, *_sound, foldConstants_sound), both directions of the stack<->expression interpreter incl. 'the root is the last row despite sharing' "
+        "(buildCas_den, root_is_last, interp_den), no new constant or variable ids, well-formed output, and end to end for simplify_stack INCLUDING its fallback to reduction on a caught "
+        "overflow: a constant-free stack is preserved wherever it is defined (simplify_noconst_sound); with constants the result has no more constants and for every setting of the original "
+        "constants some setting of the new ones agrees wherever the original is defined (simplify_consts_sound). TERMINATION (Props/C03Term.lean): for every well-formed stack, all "
+        "operators and real-exponent powers included, every pass and the whole pipeline terminate (simplify_terminates, automaticSimplify_terminates, foldConstants_terminates with explicit "
+        "bound, ltF_terminates), by a three-level measure on expressions; results do not depend on the fuel of the port (fuel_stable); the three ill-formed inputs on which the recursion "
+        "diverges are exhibited and shown unreachable from a stack (buildCas_wf). Tie: exact output correspondence of reduce_stack / _update / simplify_stack with the Lean port on every run; "
+        "oracle: 80-digit evaluation before/after and an exact (affine) witness search for folded constants.",
+   note=COMMON_NOTE + "NOT a theorem (kept as `def simplify_sound_Full : Prop`, validated by the oracle): soundness with real-exponent powers, where only 'agree where both are finite' can hold and that "
+        "relation is not transitive pass by pass. Termination is proved as 'some fuel suffices and the result is then independent of the fuel'; that the particular fuel the port passes "
+        "(fuelFor) suffices is checked by the correspondence (a fuel error of the port would disagree with Python). The proof attempts found and led to the repair of F18, F19 and F3b.",
+   technique="Lean 4 proof (loop invariants of utilized/reduce; fuel induction over the mutually recursive simplifier with a refinement order; well-founded level measure for termination) + exact correspondence with the Lean port; differential oracle for the unproved clause",
    design="5/C03, 12.2"),
  "C10": dict(
    text="Lean theorems over verbatim models of HallOfFame/ParetoFront (bisect_right included): after any sequence of updates the keys are the m smallest non-NaN keys ever "
@@ -73,11 +78,17 @@ CLAIMED = {
  "C05": dict(
    text="Lean theorems: an abstract interpreter over phase lists is sound w.r.t. a nondeterministic concrete semantics (abstract_sound, step_end_to_end, histories): if it accepts a "
         "generational step, then in EVERY execution (all populations, all variation/selection choices, any deterministic fitness) every fitness read is of an evaluated individual and the "
-        "returned population is evaluated and fresh; the phase lists REGENERATED from the EA sources are accepted from an unevaluated entry population (generated_steps_safe). "
-        "Tie: translator (phase order) cross-checked against the observed call sequence of the real objects + read monitor on Chromosome.fitness + end-of-generation audit on real runs.",
-   note=COMMON_NOTE + "Containers are values (aliasing between the selection result and its source is not modelled). Known finding F5 (MuCommaLambda diagnostics) in known_findings.json.",
-   technique="Lean 4 proof (soundness of an abstract interpreter, induction over histories) over phase lists regenerated from source; read monitor on the implementation",
-   design="5/C05"),
+        "returned population is evaluated and fresh; the phase lists REGENERATED from the EA sources are accepted from an unevaluated entry population (generated_steps_safe); a hall-of-fame "
+        "update at any point of a history reads evaluated individuals only (hof_update_anywhere). The variation phase is no longer an assumption (Props/C05Var.lean): VarAnd, VarOr and "
+        "AddRandomIndividuals are modelled statement by statement (verbatim text pinned, gen_variation_shapes) and for every population, offspring count and sequence of random draws their "
+        "offspring are fresh and of the stated number (varAnd_fresh, varOr_fresh, varOr_unflagged, addRandom_fresh, *_length, variation_step_sound), given the operator contract, which is "
+        "proved for SinglePointCrossover / SinglePointMutation (sv_operator_contract) and derived for AGraphCrossover / AGraphMutation from the C04 object-level theorems (agraph_operators_fresh). "
+        "Tie: translator (phase order, method texts) cross-checked against the observed call sequence of the real objects; scripted-draw correspondence of the real VarAnd / VarOr / "
+        "AddRandomIndividuals / single-point operators with the model (values, stored fitness, flag, age of every offspring; parents intact; no aliasing); read monitor on Chromosome.fitness + "
+        "end-of-generation audit on real runs.",
+   note=COMMON_NOTE + "Containers are values (aliasing between the selection result and its source is not modelled; the correspondence checks object identity on the real code). Known finding F5 (MuCommaLambda diagnostics) in known_findings.json.",
+   technique="Lean 4 proof (soundness of an abstract interpreter, induction over histories; induction over the loops of the variation operators) over phase lists regenerated from source; scripted-draw correspondence and read monitor on the implementation",
+   design="5/C05, 12.2"),
  "C07": dict(
    text="Lean theorems over the metric and metric-derivative formulas REGENERATED from fitness_function.py/gradient_mixin.py: each metric equals its definition (metrics_defs), is minimal at zero "
         "residual (minimal_at_zero*), each derivative function is the HasDerivAt-derivative of its metric along any differentiable residual family (gradient_correct_mse/rmse/mae/nmll), relative "
@@ -99,10 +110,15 @@ CLAIMED = {
  "C11": dict(
    text="Lean theorems over a model of serial migration whose fraction is REGENERATED from the source: the multiset of individuals over all islands is preserved, equal sizes stay equal, paired "
         "islands are fully unflagged, pairs are disjoint with exactly n%2 islands sitting out (serial_migration, exchange_*, pairing), round-half-even modelled exactly. "
-        "Tie: real SerialArchipelago migrations with logged shuffles compared exactly; generational age by oracle and source-shape fact. The parallel exchange is covered under C12.",
-   note=COMMON_NOTE + "np.random.shuffle is an arbitrary permutation (logged).",
-   technique="Lean 4 proof (List.Perm invariants) + exact correspondence under logged shuffles",
-   design="5/C11"),
+        "PARALLEL exchange (Props/C11Par.lean) over the message-level model of ParallelArchipelago._coordinate_migration_between_islands (send to partner, blocking receive from partner): for every "
+        "number of ranks, every population, every permutation broadcast as the island order and EVERY interleaving of the ranks, no reachable state is a deadlock (xchg_no_deadlock, xchg_progress), "
+        "every run has exactly potential(initial) <= 2R steps (xchg_terminates, xchg_run_length), a maximal run is final (xchg_maximal_final, xchg_completes), and in the final state no message is "
+        "in flight, each rank holds its kept part followed by its partner's dumped part, the union of all populations is a permutation of the initial union and partners of equal size keep "
+        "their sizes (xchg_result, xchg_conserved, xchg_sizes); examples show that a duplicate or out-of-range entry in the broadcast order does deadlock. "
+        "Tie: real SerialArchipelago migrations with logged shuffles compared exactly; the parallel exchange through the C12 trace validation on the mpi4py stand-in; generational age by oracle and source-shape fact.",
+   note=COMMON_NOTE + "np.random.shuffle is an arbitrary permutation (logged); MPI delivery is reliable and non-overtaking per (source, tag).",
+   technique="Lean 4 proof (List.Perm invariants; inductive invariant + potential function over all interleavings of the exchange) + exact correspondence under logged shuffles",
+   design="5/C11, 12.2"),
  "C19": dict(
    text="Lean theorems over Evaluation: serial phase postcondition per slot and exact count (serial_phase, count_delta), multiprocess evaluation equals serial evaluation for EVERY completion order "
         "(multiprocess_phase), totals over islands/archipelagos (island_total, archipelago_total). Tie: real Evaluation (serial and real worker pools with delays) vs the model; counting wrappers "
